@@ -146,7 +146,8 @@ def borrow(m, owner, what):
         x = m.instances.get("i0") or m.instarrays.get("i0")
         x.connect("bp", owner.bb)
         return
-    r9 = m.add(h.Instance(of=R(), name="r9")); r9.connect("n", m.s)
+    # named to sort before every instance of the owner: what leaks into the owner's design by NAME shows too
+    r9 = m.add(h.Instance(of=R(), name="a9")); r9.connect("n", m.s)
     if what == "sig":
         r9.connect("p", owner.s)
     elif what == "slice":
@@ -187,8 +188,8 @@ def edit(mods, e):
         x = m.instances.get("i0") or m.instarrays.get("i0")
         x.connect("bp", h.AnonymousBundle(x=m.s, y=m.t))
     elif w == "borrow":
-        if "r9" in m.instances:
-            m.r9.connect("p", m.s)
+        if "a9" in m.instances:
+            m.a9.connect("p", m.s)
         else:
             x = m.instances.get("i0") or m.instarrays.get("i0")
             x.connect("bp", m.bi0)
